@@ -30,6 +30,7 @@ TRUSTED_BASE = [
     "modelled rather than verified: lib/string.nelua, lib/utf8.nelua, lib/math.nelua, lib/detail/strpatt|strpack|strchar.nelua are mirrored by hand in coq/C13/Model*.v; the tie is the per-call correspondence run on every check",
 ]
 ASSUMPTIONS = [
+    "TERMINATOR: every pattern and every format string is NUL-terminated, as string literals and strings built by the library are: the models read pattern.data[#pattern] and fmt.data[#fmt] as 0 (ModelPat.P / ModelFmt.hd0), and C13_match_reads_only_its_arguments requires the memories to agree on index #pattern too (a pattern 'a' followed in memory by '*' would behave differently). String VIEWS (subview / matchview / gmatchview results, spans cast to string) used as patterns or formats are excluded from every theorem and from the streams; subjects need no terminator",
     "C 'C' locale for Lua's strcoll/toupper/tolower/isxxx (the interpreter never calls setlocale)",
     "libc memcmp/memchr/memmem behave as their ISO C specifications (memcmp modelled as lexicographic comparison of prefixes)",
     "a single allocation above 2^47 bytes fails (ALLOC_LIMIT in Model.v), used only to say that string.rep stops instead of returning on absurd sizes",
@@ -648,7 +649,9 @@ def model_agrees(m, nel):
     if m == "!trap" or m.startswith("!trap:"):
         return nel == "!sig6"
     if m == "!unsafe":
-        return nel.startswith("!sig") or nel.startswith("!exit") or nel == "!nonterminating" or True   # UB: anything may happen
+        # the model says the code runs into undefined behaviour: only a crash / sanitizer report / hang of the implementation
+        # agrees with that (a value returned is a mismatch: the theorems say the outcome is unreachable)
+        return nel.startswith("!sig") or nel.startswith("!exit") or nel == "!nonterminating"
     if m == "!loop":
         return nel == "!nonterminating"
     return m == nel
@@ -716,11 +719,9 @@ def correspond(ctx):
                                   "the Coq transcription of Lua's %s does not agree with the reference interpreter on '%s': transcription %s, interpreter %s" % (a[0], line, spec[:80], lua[:80]),
                                   detail={"case": line, "spec": spec, "reference_lua": lua, "no_longer_checks": "spec stream C13/%s" % a[0]}, failing_input=False)
         st, why = verdict(a, lua, nel)
-        documented_stop = (mod == "!trap" and a[0] not in PATTERN_OPS) or mod in DOCUMENTED_PATTERN_STOPS \
-            or (mod == "?" and a[0] in PATTERN_OPS)
+        documented_stop = (mod == "!trap" and a[0] not in PATTERN_OPS) or mod in DOCUMENTED_PATTERN_STOPS
         if st == "undefined" and not documented_stop:
-            # the port stops where Lua returns: accepted only as a documented limit, i.e. when the model of the port
-            # predicts the stop (or, for patterns beyond the model voice's size limit, when the model has no voice)
+            # the port stops where Lua returns: accepted only as a documented limit, i.e. when the model of the port predicts the stop
             st, why = "FAIL", "the port stops where Lua is defined, and not for a documented limit"
         stats[st] += 1
         if st == "undefined":
@@ -808,10 +809,12 @@ THEOREM_CLASSES = {
     "C13_match_fuel_never_exhausted": "main", "C13_match_loop_bounds_adequate": "main", "C13_match_never_unsafe": "main",
     "C13_match_positions_in_range": "main", "C13_match_class_end_in_pattern": "corollary",
     "C13_match_expansion_in_subject": "corollary", "C13_match_balance_in_subject": "corollary",
-    "C13_find_plain_first": "main", "C13_find_plain_none": "main", "C13_find_plain_decision_eq_lua": "main",
+    "C13_find_plain_first": "main", "C13_find_plain_none": "main",
+    "C13_find_plain_decision_eq_lua": "corollary",     # a four-row truth table of two one-line mirrors; the tie to the code is the find stream
     "C13_format_eq_lua": "main", "C13_format_val_is_lua": "main", "C13_format_iff_restricted_lua": "corollary",
     "C13_format_restricted_is_lua": "corollary", "C13_c99_plain_d_is_decimal": "corollary",
     "C13_format_never_unsafe": "main", "C13_format_never_truncated": "main",
+    "C13_format_s_bound_needed": "refutation", "C13_format_num_bound_needed": "refutation",
     "C13_match_reads_only_its_arguments": "main", "C13_match_generic_instance": "definitional",
     "C13_search_bounds_adequate": "main", "C13_format_bounds_adequate": "main", "C13_packsize_bound_adequate": "main",
     "C13_gen_facts": "tripwire",
